@@ -689,19 +689,25 @@ where
     pub fn seek(&mut self, to: &Position) -> Result<(), Error> {
         let offset = to.byte as i64 - self.position.byte as i64;
         let pos = self.buf_pos.pos.0 as i64 + offset;
-        self.position = to.clone();
-        self.incomplete_pos = None;
-        self.state = State::Positioned;
 
         if pos >= 0 && pos < (self.get_buf().len() as i64) {
             // position reachable within buffer -> no actual seeking necessary
+            self.position = to.clone();
+            self.incomplete_pos = None;
+            self.state = State::Positioned;
             self.buf_pos.reset(pos as usize);
             return Ok(());
         }
 
+        // if this fails, the reader is left unchanged
         self.buf_reader.seek(io::SeekFrom::Start(to.byte))?;
-        fill_buf(&mut self.buf_reader)?;
+        // The buffer is empty now. Point to its start before refilling,
+        // so the reader remains consistent if refilling fails.
+        self.position = to.clone();
+        self.incomplete_pos = None;
+        self.state = State::Positioned;
         self.buf_pos.reset(0);
+        fill_buf(&mut self.buf_reader)?;
         Ok(())
     }
 }
